@@ -608,3 +608,57 @@ def cmap_roundtrip(fmt, shape, k):
     st2 = CM.CmapSubtable.newSubtable(fmt)
     st2.decompile(data, font)
     ob('decompile:same-map', sorted(st2.cmap) == sorted(codes) and all(st2.cmap[c] == nm for c, nm in zip(codes, names)))
+
+
+# ------------------------------------------------------------------------------------------------ GSUB single substitution (delta form)
+import fontTools.ttLib.tables.otTables as OT
+from harness.common import SymFont
+
+SUBST_PATTERNS = {
+    # name pairs in mapping (= insertion) order; the glyph ids behind the names are a symbolic permutation, so which pairs share a delta is a solver fork
+    'identity-first': [('g0', 'g0'), ('g1', 'g2'), ('g3', 'g4')],
+    'identity-last': [('g1', 'g2'), ('g3', 'g4'), ('g0', 'g0')],
+    'pairs': [('g0', 'g1'), ('g2', 'g3')],
+    'chain': [('g0', 'g1'), ('g1', 'g2'), ('g2', 'g3')],
+    'one': [('g0', 'g3')],
+    'swap': [('g0', 'g1'), ('g1', 'g0'), ('g2', 'g4')],
+}
+
+
+@kernel('C02', funcs=['ttLib/tables/otTables.py:SingleSubst.preWrite', 'ttLib/tables/otTables.py:SingleSubst.postRead'],
+        bounds='GSUB SingleSubst with 1-3 substitutions from 6 patterns (identity entries first / last, disjoint pairs, chains, swaps) over 5 glyphs whose glyph ids are a '
+               'SYMBOLIC permutation (so whether all pairs share one id delta - format 1 - or not - format 2 - and the wrap of the delta mod 65536 are solver forks): '
+               'the raw table (Coverage + DeltaGlyphID, or Coverage + Substitute array), applied as the OpenType spec says, substitutes every input glyph by its mapped '
+               'glyph; the coverage is in increasing glyph-id order; postRead on a fresh table returns the same mapping',
+        shims=[], quick=[dict(pat='identity-first'), dict(pat='pairs')], thorough=[dict(pat=p) for p in SUBST_PATTERNS], max_paths=20000)
+def single_subst_roundtrip(pat):
+    font = SymFont(5)
+    pairs = SUBST_PATTERNS[pat]
+    st = OT.SingleSubst()
+    st.mapping = dict(pairs)
+    raw = st.preWrite(font)
+    fmt = st.Format
+    observe('format', fmt)
+    cov = list(raw['Coverage'].glyphs)
+    ob('coverage-is-the-input-set', sorted(cov) == sorted(a for a, _ in pairs))
+    ob('coverage-in-glyph-id-order', conj([lt(font.getGlyphID(cov[i]), font.getGlyphID(cov[i + 1])) for i in range(len(cov) - 1)]))
+    conds = []
+    for a, b in pairs:
+        if a not in cov:
+            conds.append(False)
+        elif fmt == 1:
+            conds.append(eq((font.getGlyphID(a) + raw['DeltaGlyphID']) % 65536, font.getGlyphID(b)))
+        elif fmt == 2:
+            conds.append(raw['Substitute'][cov.index(a)] == b)
+        else:
+            conds.append(False)
+    ob('spec:every-input-substituted-as-mapped', conj(conds))
+    if fmt == 1:
+        ob('spec:delta-fits-int16-or-wraps', conj([le(0, raw['DeltaGlyphID']), lt(raw['DeltaGlyphID'], 65536)]))
+    raw2 = dict(raw)
+    if fmt == 2:
+        raw2['GlyphCount'] = len(raw['Substitute'])
+    st2 = OT.SingleSubst()
+    st2.Format = fmt
+    st2.postRead(raw2, font)
+    ob('postRead:same-mapping', st2.mapping == dict(pairs))
